@@ -18,7 +18,10 @@
     C12_build2_zero_count_panics   the proved negation for the known finding D6
   and the `NOT PROVED` blocks at the end.
 -/
+import Mathlib.Tactic.Ring
+import Mathlib.Algebra.Order.Field.Rat
 import Honeycomb.Lemmas.GridLink
+import Honeycomb.Lemmas.GridVertex
 import Honeycomb.Lemmas.Run
 import Honeycomb.Lemmas.WFLink
 
@@ -447,5 +450,241 @@ theorem C12_build2_partial (split : Bool) (o : Rat × Rat) {nx ny : Nat} {lpx lp
   have a2 := badLen_pos hy
   unfold build2
   rcases lens with _ | ⟨lx, ly⟩ <;> simp [parse2, a1, a2] <;> intro e <;> (repeat' split) <;> simp
+
+/-! ## (e) split grid: triangles and diagonal; hex grid: cells and shared faces -/
+
+/-- Split grid, cell `(ix, iy)`: local darts `0 → 1 → 2 → 0` (lower-left triangle: bottom side,
+    diagonal, left side) and `3 → 4 → 5 → 3` (upper-right triangle: diagonal, right side, top side)
+    are β1-cycles; the two diagonal darts are glued to each other; the four outer sides are glued
+    to the facing side of the adjacent cell, and free exactly on the outer boundary. -/
+theorem C12_split2_faces (ox oy lx ly : Rat) {nx ny ix iy : Nat} (hx : ix < nx) (hy : iy < ny) :
+    let m := buildSplit2 ox oy nx ny lx ly
+    let D := fun (x y k : Nat) => dartOf 6 nx ny x y 0 k
+    (∀ k, k < 6 → m.β 1 (D ix iy k) = D ix iy (3 * (k / 3) + (k + 1) % 3) ∧
+                  m.β 0 (D ix iy k) = D ix iy (3 * (k / 3) + (k + 2) % 3)) ∧
+    m.β 2 (D ix iy 1) = D ix iy 3 ∧ m.β 2 (D ix iy 3) = D ix iy 1 ∧
+    m.β 2 (D ix iy 0) = (if iy = 0 then 0 else D ix (iy - 1) 5) ∧
+    m.β 2 (D ix iy 2) = (if ix = 0 then 0 else D (ix - 1) iy 4) ∧
+    m.β 2 (D ix iy 4) = (if ix + 1 = nx then 0 else D (ix + 1) iy 2) ∧
+    m.β 2 (D ix iy 5) = (if iy + 1 = ny then 0 else D ix (iy + 1) 0) := by
+  intro m D
+  refine ⟨?_, ?_, ?_, ?_, ?_, ?_, ?_⟩
+  · intro k hk
+    have k6 : k = 0 ∨ k = 1 ∨ k = 2 ∨ k = 3 ∨ k = 4 ∨ k = 5 := by omega
+    constructor
+    · rw [show m.β 1 (D ix iy k) = _ from split2_β ox oy lx ly hx hy hk (by decide : 1 < 3)]
+      rcases k6 with rfl | rfl | rfl | rfl | rfl | rfl <;> rfl
+    · rw [show m.β 0 (D ix iy k) = _ from split2_β ox oy lx ly hx hy hk (by decide : 0 < 3)]
+      rcases k6 with rfl | rfl | rfl | rfl | rfl | rfl <;> rfl
+  · exact split2_β ox oy lx ly hx hy (by decide : 1 < 6) (by decide : 2 < 3)
+  · exact split2_β ox oy lx ly hx hy (by decide : 3 < 6) (by decide : 2 < 3)
+  · exact split2_β ox oy lx ly hx hy (by decide : 0 < 6) (by decide : 2 < 3)
+  · exact split2_β ox oy lx ly hx hy (by decide : 2 < 6) (by decide : 2 < 3)
+  · exact split2_β ox oy lx ly hx hy (by decide : 4 < 6) (by decide : 2 < 3)
+  · exact split2_β ox oy lx ly hx hy (by decide : 5 < 6) (by decide : 2 < 3)
+
+/-- every non-null dart of the split grid is a side of exactly one cell -/
+theorem C12_split2_darts {nx ny : Nat} (hnx : 0 < nx) (hny : 0 < ny) {d : Nat} (h1 : 1 ≤ d)
+    (h2 : d ≤ 6 * nx * ny) :
+    ∃ ix iy k, ix < nx ∧ iy < ny ∧ k < 6 ∧ d = dartOf 6 nx ny ix iy 0 k ∧
+      ∀ ix' iy' k', ix' < nx → iy' < ny → k' < 6 → d = dartOf 6 nx ny ix' iy' 0 k' →
+        ix' = ix ∧ iy' = iy ∧ k' = k := by
+  have h2' : d ≤ 6 * (nx * ny * 1) := by rw [Nat.mul_one, ← Nat.mul_assoc]; exact h2
+  obtain ⟨ix, iy, iz, o, hx, hy, hz, ho, e⟩ := decode (K := 6) (by decide) hnx hny h1 h2'
+  have hz0 : iz = 0 := by omega
+  subst hz0
+  refine ⟨ix, iy, o, hx, hy, ho, e, ?_⟩
+  intro ix' iy' k' hx' hy' hk' e'
+  obtain ⟨a, b, _, c⟩ := dartOf_inj hx' hy' hk' hx hy ho (e'.symm.trans e)
+  exact ⟨a, b, c⟩
+
+/-- the face (group of four local darts) a local dart of a hexahedron belongs to:
+    0 = y-, 1 = z-, 2 = x+, 3 = z+, 4 = x-, 5 = y+ (the comment block of grid.rs) -/
+def hexFace (o : Nat) : Nat := o / 4
+
+/-- direction code (see `absEntry`) of the neighbour across a face -/
+def hexFaceDir : Nat → Nat
+  | 0 => 3 | 1 => 5 | 2 => 2 | 3 => 6 | 4 => 1 | _ => 4
+
+/-- the face of the neighbour that is glued to a face -/
+def hexFaceOpp : Nat → Nat
+  | 0 => 5 | 1 => 3 | 2 => 4 | 3 => 1 | 4 => 2 | _ => 0
+
+set_option maxRecDepth 100000 in
+theorem hexShape_facts : ∀ o, o < 24 →
+    (hexShape.at o 0).1 = 0 ∧ (hexShape.at o 1).1 = 0 ∧ (hexShape.at o 2).1 = 0 ∧
+    hexFace (hexShape.at o 0).2 = hexFace o ∧ hexFace (hexShape.at o 1).2 = hexFace o ∧
+    (hexShape.at o 1).2 = 4 * (o / 4) + (o + 1) % 4 ∧ (hexShape.at o 0).2 = 4 * (o / 4) + (o + 3) % 4 ∧
+    (hexShape.at o 2).2 < 24 ∧ hexFace (hexShape.at o 2).2 ≠ hexFace o ∧
+    (hexShape.at o 3).1 = hexFaceDir (hexFace o) ∧
+    hexFace (hexShape.at o 3).2 = hexFaceOpp (hexFace o) := by decide
+
+/-- Hex grid, cell `(ix, iy, iz)`, local dart `o < 24`: the six groups of four local darts are
+    β1-cycles (the six quadrilateral faces; β0 runs them backwards); β2 stays inside the cell and
+    leads to another face of it (the 24 darts are closed under β0, β1, β2: the volume is the cell);
+    β3 is null **iff** the cell has no neighbour across that face (outer boundary), and otherwise
+    it is a dart of the facing face (`hexFaceOpp`) of the adjacent cell. -/
+theorem C12_hex3_cells (ox oy oz lx ly lz : Rat) {nx ny nz ix iy iz o : Nat} (hx : ix < nx)
+    (hy : iy < ny) (hz : iz < nz) (ho : o < 24) :
+    let m := buildHex3 ox oy oz nx ny nz lx ly lz
+    let D := fun (x y z k : Nat) => dartOf 24 nx ny x y z k
+    m.β 1 (D ix iy iz o) = D ix iy iz (4 * (o / 4) + (o + 1) % 4) ∧
+    m.β 0 (D ix iy iz o) = D ix iy iz (4 * (o / 4) + (o + 3) % 4) ∧
+    (∃ o', o' < 24 ∧ hexFace o' ≠ hexFace o ∧ m.β 2 (D ix iy iz o) = D ix iy iz o') ∧
+    (∃ o', hexFace o' = hexFaceOpp (hexFace o) ∧
+      m.β 3 (D ix iy iz o) = absEntry 24 nx ny nz ix iy iz (hexFaceDir (hexFace o)) o') := by
+  intro m D
+  obtain ⟨e0, e1, e2, _, _, p1, p0, b2, f2, d3, f3⟩ := hexShape_facts o ho
+  refine ⟨?_, ?_, ⟨(hexShape.at o 2).2, b2, f2, ?_⟩, ⟨(hexShape.at o 3).2, f3, ?_⟩⟩
+  · rw [show m.β 1 (D ix iy iz o) = _ from hex3_β ox oy oz lx ly lz hx hy hz ho (by decide : 1 < 4), e1, p1]
+    rfl
+  · rw [show m.β 0 (D ix iy iz o) = _ from hex3_β ox oy oz lx ly lz hx hy hz ho (by decide : 0 < 4), e0, p0]
+    rfl
+  · rw [show m.β 2 (D ix iy iz o) = _ from hex3_β ox oy oz lx ly lz hx hy hz ho (by decide : 2 < 4), e2]
+    rfl
+  · rw [show m.β 3 (D ix iy iz o) = _ from hex3_β ox oy oz lx ly lz hx hy hz ho (by decide : 3 < 4), d3]
+
+/-- every non-null dart of the hex grid is a local dart of exactly one cell: `nx·ny·nz` cells of 24
+    darts -/
+theorem C12_hex3_darts {nx ny nz : Nat} (hnx : 0 < nx) (hny : 0 < ny) {d : Nat} (h1 : 1 ≤ d)
+    (h2 : d ≤ 24 * nx * ny * nz) :
+    ∃ ix iy iz k, ix < nx ∧ iy < ny ∧ iz < nz ∧ k < 24 ∧ d = dartOf 24 nx ny ix iy iz k ∧
+      ∀ ix' iy' iz' k', ix' < nx → iy' < ny → iz' < nz → k' < 24 → d = dartOf 24 nx ny ix' iy' iz' k' →
+        ix' = ix ∧ iy' = iy ∧ iz' = iz ∧ k' = k := by
+  have h2' : d ≤ 24 * (nx * ny * nz) := by
+    rw [← Nat.mul_assoc, ← Nat.mul_assoc]; exact h2
+  obtain ⟨ix, iy, iz, o, hx, hy, hz, ho, e⟩ := decode (K := 24) (by decide) hnx hny h1 h2'
+  refine ⟨ix, iy, iz, o, hx, hy, hz, ho, e, ?_⟩
+  intro ix' iy' iz' k' hx' hy' _ hk' e'
+  exact dartOf_inj hx' hy' hk' hx hy ho (e'.symm.trans e)
+
+example : (buildSplit2 0 0 2 2 1 1).β 2 (dartOf 6 2 2 0 0 0 4) = dartOf 6 2 2 1 0 0 2 := by decide
+example : (buildHex3 0 0 0 2 1 1 1 1 1).β 3 (dartOf 24 2 1 0 0 0 8) = dartOf 24 2 1 1 0 0 16 :=
+  hex3_β 0 0 0 1 1 1 (nx := 2) (ny := 1) (nz := 1) (ix := 0) (iy := 0) (iz := 0) (o := 8) (i := 3)
+    (by decide) (by decide) (by decide) (by decide) (by decide)
+
+/-! ## (d) vertices: lattice points and coordinates -/
+
+open GridVertex in
+/-- Corners of cell `(ix, iy)`: the vertex (`vertex_id`) at the origin of local darts 0,1,2,3 carries
+    exactly `origin + (ix·lx, iy·ly)`, `+ ((ix+1)·lx, iy·ly)`, `+ ((ix+1)·lx, (iy+1)·ly)`,
+    `+ (ix·lx, (iy+1)·ly)`: the face runs counter-clockwise round the rectangle
+    `[ix·lx, (ix+1)·lx] × [iy·ly, (iy+1)·ly]` (shifted by the origin), so local darts 0,1,2,3 are its
+    bottom, right, top and left sides. -/
+theorem C12_grid2_corners (ox oy lx ly : Rat) {nx ny ix iy : Nat} (hnx : 0 < nx) (hny : 0 < ny)
+    (hx : ix < nx) (hy : iy < ny) :
+    let m := buildGrid2 ox oy nx ny lx ly
+    let V := fun (k : Nat) => m.att 0 (vid2 m (dartOf 4 nx ny ix iy 0 k))
+    V 0 = some (.pt (ox + ((ix : Nat) : Rat) * lx) (oy + ((iy : Nat) : Rat) * ly) 0) ∧
+    V 1 = some (.pt (ox + ((ix + 1 : Nat) : Rat) * lx) (oy + ((iy : Nat) : Rat) * ly) 0) ∧
+    V 2 = some (.pt (ox + ((ix + 1 : Nat) : Rat) * lx) (oy + ((iy + 1 : Nat) : Rat) * ly) 0) ∧
+    V 3 = some (.pt (ox + ((ix : Nat) : Rat) * lx) (oy + ((iy + 1 : Nat) : Rat) * ly) 0) := by
+  intro m V
+  have h : ∀ k, k < 4 → V k = some (coord ox oy lx ly (ix + cdx k, iy + cdy k)) := by
+    intro k hk
+    have hd : IsDart nx ny (D nx ny ix iy k) := ⟨ix, iy, k, hx, hy, hk, rfl⟩
+    have := grid2_att ox oy lx ly hnx hny hd
+    rw [pt_D hx hk] at this
+    exact this
+  exact ⟨h 0 (by decide), h 1 (by decide), h 2 (by decide), h 3 (by decide)⟩
+
+open GridVertex in
+/-- Vertices ↔ lattice points: two darts have the same `vertex_id` iff they start at the same
+    lattice point; the lattice points of darts are exactly the `(nx+1)·(ny+1)` points
+    `(i, j)`, `i ≤ nx`, `j ≤ ny`; and the vertex of a dart carries `origin + (i·lx, j·ly)`. -/
+theorem C12_grid2_vertices (ox oy lx ly : Rat) {nx ny : Nat} (hnx : 0 < nx) (hny : 0 < ny) :
+    let m := buildGrid2 ox oy nx ny lx ly
+    (∀ d e, IsDart nx ny d → IsDart nx ny e → (vid2 m d = vid2 m e ↔ pt nx d = pt nx e)) ∧
+    (∀ d, IsDart nx ny d → (pt nx d).1 ≤ nx ∧ (pt nx d).2 ≤ ny ∧
+      m.att 0 (vid2 m d) = some (.pt (ox + ((pt nx d).1 : Rat) * lx) (oy + ((pt nx d).2 : Rat) * ly) 0)) ∧
+    (∀ i j, i ≤ nx → j ≤ ny → ∃ d, IsDart nx ny d ∧ pt nx d = (i, j)) ∧
+    (∀ d, 1 ≤ d → d ≤ 4 * nx * ny → IsDart nx ny d) := by
+  intro m
+  have st := sameTopo_grid2 ox oy nx ny lx ly
+  refine ⟨?_, ?_, ?_, ?_⟩
+  · intro d e hd he
+    constructor
+    · intro h
+      rw [← (vid_pt hnx hny st hd).1, ← (vid_pt hnx hny st he).1]
+      exact congrArg (pt nx) h
+    · intro h
+      exact vid_same hnx hny st st hd he h
+  · intro d hd
+    obtain ⟨a, b, k, ha, hb, hk, rfl⟩ := hd
+    have hd : IsDart nx ny (D nx ny a b k) := ⟨a, b, k, ha, hb, hk, rfl⟩
+    have e := pt_D (ny := ny) (b := b) ha hk
+    have c1 : cdx k ≤ 1 := by unfold cdx; split <;> omega
+    have c2 : cdy k ≤ 1 := by unfold cdy; split <;> omega
+    refine ⟨by rw [e]; simp; omega, by rw [e]; simp; omega, ?_⟩
+    exact grid2_att ox oy lx ly hnx hny hd
+  · intro i j hi hj
+    obtain ⟨blk, hblk, c, _, hc1, hc2, hp⟩ := squarePlace_covers hnx hny hi hj
+    exact ⟨_, ⟨c.1, c.2, blk.2.1 - 1, hc1, hc2, by have := (squarePlace_good blk hblk).2.2.1; omega, rfl⟩, hp⟩
+  · intro d h1 h2
+    exact isDart_of_range hnx hny h1 h2
+
+example : ∃ v, (buildGrid2 0 0 2 2 1 1).att 0 (vid2 (buildGrid2 0 0 2 2 1 1) (dartOf 4 2 2 1 1 0 0)) = some v :=
+  ⟨_, (C12_grid2_corners 0 0 1 1 (nx := 2) (ny := 2) (ix := 1) (iy := 1) (by decide) (by decide)
+    (by decide) (by decide)).1⟩
+
+/-- twice the signed area of the quadrilateral `p0 p1 p2 p3` (shoelace formula) -/
+def area2 (p0 p1 p2 p3 : Rat × Rat) : Rat :=
+  (p0.1 * p1.2 - p1.1 * p0.2) + (p1.1 * p2.2 - p2.1 * p1.2) + (p2.1 * p3.2 - p3.1 * p2.2) +
+    (p3.1 * p0.2 - p0.1 * p3.2)
+
+/-- The corners of `C12_grid2_corners`, in face order, span a quadrilateral of signed area `lx·ly`:
+    positive (counter-clockwise) for positive cell lengths. -/
+theorem C12_grid2_area (ox oy lx ly : Rat) (ix iy : Nat) :
+    let x0 := ox + ((ix : Nat) : Rat) * lx
+    let x1 := ox + ((ix + 1 : Nat) : Rat) * lx
+    let y0 := oy + ((iy : Nat) : Rat) * ly
+    let y1 := oy + ((iy + 1 : Nat) : Rat) * ly
+    area2 (x0, y0) (x1, y0) (x1, y1) (x0, y1) = 2 * (lx * ly) ∧
+    (0 < lx → 0 < ly → 0 < area2 (x0, y0) (x1, y0) (x1, y1) (x0, y1)) := by
+  intro x0 x1 y0 y1
+  have h : area2 (x0, y0) (x1, y0) (x1, y1) (x0, y1) = 2 * (lx * ly) := by
+    simp only [area2, x0, x1, y0, y1]
+    push_cast
+    ring
+  refine ⟨h, ?_⟩
+  intro hx hy
+  rw [h]
+  exact Rat.mul_pos two_pos (Rat.mul_pos hx hy)
+
+example : area2 (0, 0) (1, 0) (1, 1) (0, 1) = 2 := by
+  have := (C12_grid2_area 0 0 1 1 0 0).1
+  simpa using this
+
+/-
+NOT PROVED: C12_build2_ok — for 0 < nx, 0 < ny and positive lengths,
+    build2 false o (some (nx, ny)) (some (lx, ly)) lens = .ok (buildGrid2 o.1 o.2 nx ny lx ly)
+  (and the split twin), i.e. the mirrored `debug_assert_eq!(map.iter_faces().count(), nx*ny)` never
+  fires.  Needs `faceId2` (a BFS) evaluated on the grid: iterFaces2 = the first darts of the cells.
+  The β1-cycle structure it would count is proved (`C12_grid2_faces`); the `face_id`-based count is
+  compared with the implementation for every size of the box by the correspondence run.
+
+NOT PROVED: C12_split2_corners / C12_split2_vertices — the split grid's analogue of
+  `C12_grid2_corners` / `C12_grid2_vertices`: with `m := buildSplit2 ox oy nx ny lx ly`, the vertices
+  at the origins of local darts 0..5 of cell (ix, iy) carry origin + (ix·lx, iy·ly), ((ix+1)·lx, iy·ly),
+  (ix·lx, (iy+1)·ly), (ix·lx, (iy+1)·ly), ((ix+1)·lx, iy·ly), ((ix+1)·lx, (iy+1)·ly); vertices ↔ the
+  (nx+1)(ny+1) lattice points; both triangles counter-clockwise with area lx·ly/2.  Same proof
+  scheme as `Lemmas/GridVertex.lean` with the 6-row table (vertex orbits of up to 6 darts); topology
+  and gluing of the split grid are proved (`C12_split2_WF`, `C12_split2_faces`).
+
+NOT PROVED: C12_hex3_vertices — for `m := buildHex3 ox oy oz nx ny nz lx ly lz`, every dart `d` of cell
+  (ix, iy, iz): m.att 0 (vid3 m d) = some (origin + ((ix+ax)·lx, (iy+ay)·ly, (iz+az)·lz)) with
+  (ax, ay, az) the corner of the local dart (arms of `Gen.hexOffsetArms`), and vertices ↔ the
+  (nx+1)(ny+1)(nz+1) lattice points.  Needs the 3-D `vertex_id` walk (`vertexId3`, marks on pop) on
+  orbits of up to 24 darts and the index decoding of `generate_hex_offset`.
+
+NOT PROVED: C12_hex3_volumes_connected — the converse half of "volumes ↔ cells": any two of the 24
+  darts of a cell are connected through β1/β2 (a finite check on `hexShape`), lifted to the map.
+  Proved: the 24 darts of a cell are closed under β0, β1, β2 (`C12_hex3_cells`) and every dart belongs
+  to exactly one cell (`C12_hex3_darts`), i.e. a volume never leaves its cell.
+
+NOT PROVED: the floating-point reading of all coordinate statements (they are over `Rat`; the
+  correspondence run uses dyadic values for which every f64 operation is exact), in particular
+  `ceil` on quotients that are not exactly representable (DESIGN.md §9).
+-/
 
 end HC.C12
